@@ -18,6 +18,7 @@ package core
 //     its prefix.
 
 import (
+	"time"
 	"fmt"
 	"sort"
 	"strings"
@@ -408,6 +409,20 @@ path "*" { capabilities = ["read", "update", "list"] }`
 			s.Must(s.ReqNS(ns3, s.Root, logical.UpdateOperation, "sys/policies/acl/adm3", map[string]interface{}{"policy": admHCL}))
 			s.Must(s.Req(s.Root, logical.UpdateOperation, "sys/policies/acl/adm3", map[string]interface{}{"policy": admHCL}))
 			creds := []string{nsTok, nsRoot}
+			// a credential of ns1/ whose policy travels INSIDE the token (inline policy, as the
+			// OIDC provider's access tokens carry): it is anchored to the token's namespace too
+			{
+				te := &logical.TokenEntry{NamespaceID: ns1.ID, Path: "verif/inline", TTL: time.Hour, CreationTime: time.Now().Unix(),
+					NoIdentityPolicies: true, InlinePolicy: pol}
+				if err := s.Core.VerifCreateToken(namespace.ContextWithNamespace(rootCtx(), ns1), te); err != nil || te.ID == "" {
+					t.Fatalf("harness: inline-policy token: %v", err)
+				}
+				if r, e := s.ReqNS(ns1, te.ID, logical.UpdateOperation, "m/kv/x", map[string]interface{}{"value": "v"}); !OK(r, e) {
+					r2, e2 := s.ReqNS(ns1, te.ID, logical.ReadOperation, "auth/token/lookup-self", nil)
+					t.Fatalf("harness: the inline-policy token of ns1/ is refused inside ns1/: %s; lookup-self: %v %s", ErrText(r, e), r2, ErrText(r2, e2))
+				}
+				creds = append(creds, te.ID)
+			}
 			for _, pn := range []string{"../" + ns3.UUID + "/adm3", "../" + namespace.RootNamespaceUUID + "/adm3", "./../" + ns3.UUID + "/adm3", "x/../../" + ns3.UUID + "/adm3", "ns3/adm3", "../adm3", "/adm3"} {
 				r, e := s.ReqNS(ns1, s.Root, logical.UpdateOperation, "auth/token/create", map[string]interface{}{"policies": []string{pn}, "ttl": "1h", "no_default_policy": true})
 				if OK(r, e) && r != nil && r.Auth != nil {
